@@ -41,7 +41,7 @@ ASSUMPTIONS = ["call-level interleavings only (single-threaded); thread pre-empt
                "chain spans cover every time used in the process except in the dedicated K3 scenario"]
 REQUIRED = ["C10:fresh-identical", "C10:after-history", "C10:interleaved", "C10:all-interleavings",
             "C10:same-as-alone-in-fresh-interpreter"]
-REQUIRED_CATS = ["kind:xy", "alone-kind:xy", "alone-kind:spot", "alone-kind:chain", "kind:chain", "kind:spot", "kind:discrete", "history:abandon", "history:full", "history:otherfold", "history:error",
+REQUIRED_CATS = ["scenario:used-transmitter-other-latency", "kind:xy", "alone-kind:xy", "alone-kind:spot", "alone-kind:chain", "kind:chain", "kind:spot", "kind:discrete", "history:abandon", "history:full", "history:otherfold", "history:error",
                  "history:insolvency", "history:windowed", "scenario:K3-construction", "kind:default-state"]
 TECHNIQUE = "runtime monitoring: twin-run comparison of canonical call digests; exhaustive call-level interleavings of two short episodes"
 LEVEL_TEXT = ("Exploration plus an exhaustive enumeration of the call-level interleavings of two short episodes for a few environment "
@@ -119,7 +119,9 @@ def alone_episode(spec, fold):
     return episode(env, acts, fold)
 
 
-def build(spec):
+def build(spec, share=None):
+    """share = {"L": latency[, "tr": an existing Transmitter holding this spec's data]}: build the environment
+    with that latency and, if given, on that (already used) transmitter; a transmitter built here is stored in it."""
     kind, seed = spec
     if kind == "xy":
         return build_xy(seed)
@@ -159,8 +161,15 @@ def build(spec):
                 evs.append(EventNBBO(t + timedelta(seconds=7), rng.choice(cs), p, p * 1.001))
     L = rng.choice([0, 10])
     d = rng.choice([0, 1, 2])
-    tr = Transmitter(grid, folds={"training-set": [grid[0], grid[-1]], "late": [grid[len(grid) // 2], grid[-1]]})
-    tr.add_events(evs)
+    if share is not None:
+        L = share["L"]
+    if share is not None and share.get("tr") is not None:
+        tr = share["tr"]
+    else:
+        tr = Transmitter(grid, folds={"training-set": [grid[0], grid[-1]], "late": [grid[len(grid) // 2], grid[-1]]})
+        tr.add_events(evs)
+        if share is not None:
+            share["tr"] = tr
     fees = BrokerFees(proportional=1e-4, fixed=0.01)
     reward = rng.choice(["RewardPnL", "RewardSimpleReturn", "RewardLogReturn"])
     if kind == "discrete":
@@ -286,9 +295,33 @@ def alone_scenario(ctx, i):
     ctx.nontrivial = True
 
 
+def shared_transmitter_scenario(ctx, i):
+    """The data is loaded once into a Transmitter; a first environment (latency L1) is built on it and used; a
+    second environment with ANOTHER latency is then built on the same transmitter: it must behave exactly like
+    the same environment built on a transmitter of its own."""
+    kind = ["spot", "discrete", "spot", "chain"][(i // 50) % 4]
+    seed = ctx.np_seed * 2 % 10 ** 6
+    L1, L2 = ctx.rng.choice([(10, 0), (0, 10), (10, 3)])
+    fold = ctx.rng.choice(["training-set", "late"])
+    sh = {"L": L1}
+    first, acts1, _, _ = build((kind, seed), share=sh)
+    episode(first, acts1, "training-set", upto=ctx.rng.randint(0, 4))
+    second, acts, _, _ = build((kind, seed), share={"L": L2, "tr": sh["tr"]})
+    got = episode(second, acts, fold)
+    own, acts_o, _, _ = build((kind, seed), share={"L": L2})
+    want = episode(own, acts_o, fold)
+    compare(ctx, "C10:fresh-identical", got, want, False, spec=(kind, seed), fold=fold, latencies=[L1, L2],
+            scenario="second environment on a used transmitter, other latency")
+    ctx.cat("scenario:used-transmitter-other-latency")
+    ctx.sample = {"scenario": "used transmitter, other latency", "spec": (kind, seed), "latencies": [L1, L2], "fold": fold}
+    ctx.nontrivial = True
+
+
 def case(ctx, i, tier):
     if i % 50 == 49:
         return k3_scenario(ctx)
+    if i % 50 == 21:
+        return shared_transmitter_scenario(ctx, i)
     if i % 50 == 7:
         return alone_scenario(ctx, i)
     rng = ctx.rng
